@@ -94,6 +94,11 @@ Fixpoint sixel_layers (fw fh : Z) (l : list sixel) : res (list (Z * Z)) :=
 (* everything between the character loop and crop_loaded_file: sizes (in cells) of the Image layers that are pushed *)
 Definition sixel_epilogue (fw fh : Z) (done : list sixel) : res (list (Z * Z)) :=
   do kept <- join_sixels fw fh [] done; sixel_layers fw fh (rev kept).      (* `sixels.pop()`: last one first *)
+(* `result.update_sixel_threads()?`: a decode thread that returns an error ends the load with Err - after the sixels that
+   finished before it were joined ([serr]: part of the oracle) *)
+Definition sixel_epilogue_e (fw fh : Z) (done : list sixel) (serr : bool) : res (option (list (Z * Z))) :=
+  do kept <- join_sixels fw fh [] done;
+  if serr then ROk None else do l <- sixel_layers fw fh (rev kept); ROk (Some l).
 
 (* crop_loaded_file: trailing rows whose `chars` is empty are popped while more than one row is left; the height of buffer
    and layer 0 becomes Buffer::get_line_count() = the largest `lines.len()` of all layers (a sixel layer has one row per cell row) *)
@@ -107,19 +112,21 @@ Definition crop (t : term) (layers : list (Z * Z)) : term :=
   let h := fold_left Z.max (map snd layers) (zlen ls) in
   set_bh (set_lh (set_lines t ls) h) h.
 
-Inductive tout := TOk (t : term) (layers : list (Z * Z)) | TPanic (site : Z) | TOverflow.
-Definition epilogue (fw fh : Z) (done : list sixel) (t : term) : tout :=
-  match sixel_epilogue fw fh done with
-  | ROk layers => TOk (crop t layers) layers
+Inductive tout := TOk (t : term) (layers : list (Z * Z)) | TErr | TPanic (site : Z) | TOverflow.
+Definition epilogue (fw fh : Z) (done : list sixel) (serr : bool) (t : term) : tout :=
+  match sixel_epilogue_e fw fh done serr with
+  | ROk (Some layers) => TOk (crop t layers) layers
+  | ROk None => TErr
   | RPanic s => TPanic s
   end.
 
 (* ---- the loaders ------------------------------------------------------------------------------------------------------------------ *)
 (* Ansi / Avatar / PCBoard / Ascii / CtrlA / Renegade ::load_buffer: Buffer::new((80, 25)), parse_with_parser.
-   [fw fh done]: the oracle (font 0 and the sixels whose decode thread delivered a picture, in the order they were joined). *)
-Definition load_ansi_like (e : emu) (music : Z) (bs : bool) (s : option fsauce) (fw fh : Z) (done : list sixel) (cs : list Z) : tout :=
+   [fw fh done serr]: the oracle (font 0; the sixels whose decode thread delivered a picture, in the order they were joined;
+   whether a decode thread then returned an error). *)
+Definition load_ansi_like (e : emu) (music : Z) (bs : bool) (s : option fsauce) (fw fh : Z) (done : list sixel) (serr : bool) (cs : list Z) : tout :=
   match run e (file_mach (file_term 80 25 s [] 7 0 (sauce_ice s)) (file_pst music bs s)) cs with
-  | RunOk m => epilogue fw fh done (mt m)
+  | RunOk m => epilogue fw fh done serr (mt m)
   | RunPanic site => TPanic site
   | RunDiverge => TOverflow
   end.
@@ -144,14 +151,14 @@ Inductive tfmt := TAns | TAvt | TPcb | TAsc | TMsg | TRen | TSeq | TAta.
 Definition emu_of (f : tfmt) : option emu :=
   match f with TAns => Some EAnsi | TAvt => Some EAvatar | TPcb => Some EPcb | TAsc => Some EAscii | TMsg => Some ECtrlA
              | TRen => Some ERenegade | TSeq | TAta => None end.
-Definition text_load (f : tfmt) (s : option fsauce) (fw fh : Z) (done : list sixel) (cs : list Z) : tout :=
+Definition text_load (f : tfmt) (s : option fsauce) (fw fh : Z) (done : list sixel) (serr : bool) (cs : list Z) : tout :=
   match f with
   | TSeq => load_seq s cs
   | TAta => load_ata s cs
-  | TAns => load_ansi_like EAnsi 0 false s fw fh done cs       (* ansi::Parser with bs_is_ctrl_char = false, music off (default) *)
-  | TAvt => load_ansi_like EAvatar 0 false s fw fh done cs     (* the wrappers hold an ansi::Parser::default() *)
-  | TPcb => load_ansi_like EPcb 0 false s fw fh done cs
-  | TAsc => load_ansi_like EAscii 0 false s fw fh done cs
-  | TMsg => load_ansi_like ECtrlA 0 false s fw fh done cs
-  | TRen => load_ansi_like ERenegade 0 false s fw fh done cs
+  | TAns => load_ansi_like EAnsi 0 false s fw fh done serr cs       (* ansi::Parser with bs_is_ctrl_char = false, music off (default) *)
+  | TAvt => load_ansi_like EAvatar 0 false s fw fh done serr cs     (* the wrappers hold an ansi::Parser::default() *)
+  | TPcb => load_ansi_like EPcb 0 false s fw fh done serr cs
+  | TAsc => load_ansi_like EAscii 0 false s fw fh done serr cs
+  | TMsg => load_ansi_like ECtrlA 0 false s fw fh done serr cs
+  | TRen => load_ansi_like ERenegade 0 false s fw fh done serr cs
   end.
